@@ -6,7 +6,7 @@ both directions.
 
 1. TLC checks the invariants of MMAE.tla (NonNegative, SumToOne, AtLeastOneModel, BayesRule,
    ModeMixValid, MixtureMoments, SpreadForm, HandBackIsSurvivor + side conditions TieFree,
-   AsCodedAdmissible) exhaustively over the bounded lattice (with action coverage).
+   PruneNeverEmpties) on every state of the bounded lattices it enumerates.
 2. spec -> impl: every maximal behaviour TLC enumerates (exhaustive for 2-4 models; by
    `-simulate` up to 30 models) is replayed into a real StaticMultipleModel /
    GeneralizedPseudoBayesian1 whose `models` are real UnscentedKalmanFilter instances.  The
@@ -649,6 +649,11 @@ def gen_trace(tid, seed, max_steps):
                     if kind == "smm":
                         if any(lo - 1e-9 <= thv <= hi + 1e-9 for lo, hi in bounds.values()):
                             rec["skip"], ax["why"] = 1, "near-prune-threshold"
+                        elif all(bounds[j][1] < thv for j in idx) and any(
+                                rec["L"][j] == 0 and not under[j] and ids_before[j] in rec["mid"] for j in idx):
+                            # every model below the threshold and the survivor's likelihood is positive but
+                            # below the projection's resolution: "positive mass" cannot be decided
+                            rec["skip"], ax["why"] = 1, "all-below-survivor-under-resolution"
                         else:
                             keep = [j for j in idx if bounds[j][0] > thv] or idx
                             b2, _ = _intervals(pq, rec["L"], exact, keep)
